@@ -468,6 +468,9 @@ pub const OP_FINISH: u64 = 3;
 pub const OP_WRITE_ALL: u64 = 4; // offer everything that is left, write_all style
 pub const OP_WRITE_N: u64 = 5; // feed exactly the next arg bytes, write_all style
 pub const OP_PEEK_MUT: u64 = 6; // get_output_mut
+/// offer the next (arg & 0xFFFF_FFFF) bytes as three slices in ONE write_vectored call;
+/// the first cut falls at (arg >> 32) eighths of them, the second halves the rest
+pub const OP_WRITE_VEC: u64 = 8;
 pub const OP_DEBUG: u64 = 7; // format!("{:?}", stream)
 
 #[derive(Clone, Debug)]
@@ -566,6 +569,40 @@ pub fn run_stream(
                         result: ev,
                         sink_len: st.borrow().accepted.len(),
                             fault_fired: st.borrow().fired_hard > fired_before,
+                    }));
+                }
+                OP_WRITE_VEC => {
+                    if (dead || out.stalled) && !continue_after_error {
+                        continue;
+                    }
+                    let n = ((arg & 0xFFFF_FFFF) as usize).min(data.len() - pos);
+                    let c1 = (n * ((arg >> 32) as usize).clamp(1, 7) / 8).min(n);
+                    let c2 = c1 + (n - c1) / 2;
+                    let piece = &data[pos..pos + n];
+                    let bufs = [std::io::IoSlice::new(&piece[..c1]), std::io::IoSlice::new(&piece[c1..c2]), std::io::IoSlice::new(&piece[c2..])];
+                    let res = s.write_vectored(&bufs);
+                    let ev = match res {
+                        Ok(k) => {
+                            pos += k.min(n);
+                            if k == 0 && n > 0 {
+                                out.stalled = true;
+                            }
+                            Ok(k)
+                        }
+                        Err(e) => {
+                            if out.first_write_err.is_none() {
+                                out.first_write_err = Some(out.events.len());
+                            }
+                            dead = true;
+                            Err(errstr(e))
+                        }
+                    };
+                    crate::heap::driver(|| out.events.push(StreamEvent {
+                        op: OP_WRITE,
+                        offered: n,
+                        result: ev,
+                        sink_len: st.borrow().accepted.len(),
+                        fault_fired: st.borrow().fired_hard > fired_before,
                     }));
                 }
                 OP_WRITE_ALL | OP_WRITE_N => {
